@@ -2,5 +2,24 @@ package main
 
 // every check package registers itself in init()
 import (
+	_ "verif/harness/c01"
+	_ "verif/harness/c02"
+	_ "verif/harness/c03"
+	_ "verif/harness/c04"
+	_ "verif/harness/c05"
+	_ "verif/harness/c06"
+	_ "verif/harness/c07"
+	_ "verif/harness/c08"
+	_ "verif/harness/c09"
+	_ "verif/harness/c10"
+	_ "verif/harness/c11"
+	_ "verif/harness/c12"
+	_ "verif/harness/c13"
+	_ "verif/harness/c14"
+	_ "verif/harness/c15"
+	_ "verif/harness/c16"
 	_ "verif/harness/c17"
+	_ "verif/harness/c18"
+	_ "verif/harness/c19"
+	_ "verif/harness/c20"
 )
